@@ -22,6 +22,14 @@ CHECKS = {
             "registration order, the loading of the patching/ordering/deploy rulebooks, and structural equality of rulebooks from fresh providers and a "
             "fresh process with another hash seed. Exhaustive over the finite database; held = all observations consistent.",
             "Trusted: sre_parse-based model synthesiser (each synthesised string is re-checked against the regex chain); the expected vendor is derived from the vendors' own match() expressions.", "4/C18"),
+    "C12": ("offline history checker (conservation / exactly-once / payload identity / termination) over recorded pool histories under a parameter grid and sys.monitoring delay injection",
+            "Each pool run executes the real Parallel.irun/run with real forked workers in its own subprocess; submit/start/done/reap/deliver/end events are "
+            "logged through an O_APPEND log and checked offline: every submitted id delivered exactly once with the value (or failure) its task produced, "
+            "run terminates, tolerate_fails=False re-raises the task's error. Schedules vary by grid (n, pool, max_tasks, durations, consumer and callback "
+            "delays, raising sets) and by seeded delays injected at 8 points of annet/parallel.py in parent and workers; evidence reports distinct "
+            "interleaving signatures observed. Held = all observed histories satisfy the checker.",
+            "No explicit-state model (second clause of the quantifier) - not decidable by this technique; no externally killed workers; wall-clock only as watchdog (inconclusive) "
+            "except a 60 s no-progress bound for termination.", "4/C12"),
 }
 
 NOT_BUILT = "check not built yet in this round (runtime-monitoring design exists in DESIGN.md section 4)"
